@@ -1,9 +1,102 @@
+/-
+  Driver ops of group `rdata` (C18, C19).
+
+    rv <class> <type> <rdatahex>                         Rdata::validate          → ok | err:<V>
+    rr <class> <type> <msghex> <cursor> <rdlength>       Rdata::read              → ok <hex> | err:<V> | panic
+    rcomp <class> <type> <rdatahex>                      Rdata::components, iterated to the end or the
+                                                         first error → ok <K>:<hex>,… | ok . | err:<V>
+    req <class> <type> <a> <b>                           Rdata::equals            → ok true|false
+    req3 <class> <type> <a> <b> <c>                      equals on all nine ordered pairs
+                                                         (ab ba bc cb ac ca aa bb cc) → ok <9 bits>
+    rset <class> <type> <r1>,<r2>,…  (`.` = no member)   RdataSetOwned::from_iter then iter → ok <hex>,… | ok none
+
+  Spec column: `specValidate`, `specRead`, `specEq`, `firstOfEachClass specEq`, `specComponents`
+  (QV.Spec.Rdata).  `-` where the property says nothing: `rr` with `cursor + rdlength` overflowing
+  `usize` (no such cursor is an offset into a message), `rcomp` on malformed RDATA.
+-/
 import QV.Driver.Util
+import QV.Model.Rdata
+import QV.Model.RdataSet
+import QV.Spec.Rdata
 
 namespace QV.Driver
-open QV
+open QV QV.Rdata QV.Spec
 
-/-- ops of group `rdata` — stub (not built yet) -/
-def rdataHandler : Handler := fun _ _ => none
+def showUnitOut : Out RErr Unit → String
+  | .ok _ => "ok"
+  | .err e => "err:" ++ e.toString
+  | .panic => "panic"
+
+def showComp : Comp → String
+  | .compressibleName w => "C:" ++ hexOfList w
+  | .uncompressibleName w => "U:" ++ hexOfList w
+  | .other o => "O:" ++ hexOfList o
+
+def showList (l : List String) : String := if l.isEmpty then "." else ",".intercalate l
+
+def bit (b : Bool) : String := if b then "1" else "0"
+
+def parseList (s : String) : Option (List Bytes) :=
+  if s = "." then some [] else (s.splitOn ",").mapM unhex
+
+def eq9 (f : Bytes → Bytes → Option Bool) (a b c : Bytes) : Option String := do
+  let l ← [(a, b), (b, a), (b, c), (c, b), (a, c), (c, a), (a, a), (b, b), (c, c)].mapM (fun p => f p.1 p.2)
+  pure ("".intercalate (l.map bit))
+
+def rdataHandler : Handler := fun op args =>
+  match op, args with
+  | "rv", [c, t, r] =>
+    match natArg c, natArg t, unhex r with
+    | some c, some t, some r =>
+      some (showUnitOut (validate c t r), if specValidate c t r.toList then "ok" else "err")
+    | _, _, _ => some bad
+  | "rr", [c, t, m, cur, len] =>
+    match natArg c, natArg t, unhex m, natArg cur, natArg len with
+    | some c, some t, some m, some cur, some len =>
+      some (showOut RErr.toString hexOf (read c t m cur len),
+            if cur + len > USIZE_MAX then "-"
+            else match specRead c t m cur len with
+                 | some r => "ok " ++ hexOfList r
+                 | none => "err")
+    | _, _, _, _, _ => some bad
+  | "rcomp", [c, t, r] =>
+    match natArg c, natArg t, unhex r with
+    | some c, some t, some r =>
+      some (showOut RErr.toString (fun l => showList (l.map showComp)) (components c t r),
+            if specValidate c t r.toList then
+              match specComponents c t r.toList with
+              | some l => "ok " ++ showList (l.map (fun x => String.singleton x.1 ++ ":" ++ hexOfList x.2))
+              | none => "-"
+            else "-")
+    | _, _, _ => some bad
+  | "req", [c, t, a, b] =>
+    match natArg c, natArg t, unhex a, unhex b with
+    | some c, some t, a?, b? =>
+      match a?, b? with
+      | some a, some b =>
+        some (showOut RErr.toString (fun v => if v then "true" else "false") (equals c t a b),
+              "ok " ++ (if specEq c t a.toList b.toList then "true" else "false"))
+      | _, _ => some bad
+    | _, _, _, _ => some bad
+  | "req3", [c, t, a, b, d] =>
+    match natArg c, natArg t, unhex a, unhex b, unhex d with
+    | some c, some t, some a, some b, some d =>
+      let m := eq9 (fun x y => (equals c t x y).toOption) a b d
+      let s := eq9 (fun x y => some (specEq c t x.toList y.toList)) a b d
+      some (match m with | some s => "ok " ++ s | none => "panic",
+            match s with | some s => "ok " ++ s | none => "-")
+    | _, _, _, _, _ => some bad
+  | "rset", [c, t, l] =>
+    match natArg c, natArg t, parseList l with
+    | some c, some t, some xs =>
+      some (showOut RErr.toString
+              (fun (o : Option (List UInt8)) => match o with
+                | some inner => showList ((QV.RdataSet.iter inner).map hexOf)
+                | none => "none")
+              (QV.RdataSet.fromIter c t xs),
+            if xs.isEmpty then "ok none"
+            else "ok " ++ showList ((firstOfEachClass (fun x y => specEq c t x y) (xs.map Array.toList)).map hexOfList))
+    | _, _, _ => some bad
+  | _, _ => none
 
 end QV.Driver
